@@ -98,6 +98,7 @@ func srlawsEngine(args []string) error {
 			zeroflow                         bool   // no inflow, no lateral inflow, no outflow in this step
 			residClass                       string // "tiny" (< 1 m^3) or "large"
 			atDead                           bool   // the reported storage (now or before) sits at or below the dead storage
+			qconv                            bool   // the residual is within what an index-flow error of 2e-8 m^3/s (twice the solver's convergence limit on q) explains through S(q) at the reported storage
 		}
 		var os_ []obs
 		prevS := 0.0
@@ -114,6 +115,10 @@ func srlawsEngine(args []string) error {
 				o.residClass = "large"
 			}
 			o.atDead = dead > 0 && (S <= dead || prevS <= dead)
+			if S >= dead && k > 0 {
+				qs := math.Pow((S-dead)/k, 1/m)
+				o.qconv = resid <= k*(math.Pow(qs+2e-8, m)-math.Pow(math.Max(qs-2e-8, 0), m))+tolB
+			}
 			// the relation is singular at Q -> 0 (dS/dQ unbounded for m < 1): judged for outflows above 1 l/s
 			if bias == 0 && O > 1e-3 {
 				o.relChecked = true
@@ -128,13 +133,13 @@ func srlawsEngine(args []string) error {
 				fmt.Fprintf(os.Stderr, "REL t=%d S=%g O=%g kOm=%g rel=%g tolR=%g prevS=%g I=%g L=%g rain=%g evap=%g netEvap=%g resid=%g params=%v\n", t, S, O, k*math.Pow(O, m), o.rel, o.tolR, prevS, in[0][t], in[1][t], in[2][t], in[3][t], netEvap, resid, []float64{bias, k, m, area, dead})
 			}
 			os_ = append(os_, o)
-			prevS = S
 			if resid > worst[variant] {
 				worst[variant] = resid
 			}
 			if resid > tolB && variant == "nodead" && os.Getenv("SRDEBUG") != "" {
-				fmt.Fprintf(os.Stderr, "t=%d resid=%g tol=%g S=%g prevS=%g I=%g L=%g O=%g netEvap=%g params=%v\n", t, resid, tolB, S, prevS, in[0][t], in[1][t], O, netEvap, []float64{bias, k, m, area, dead})
+				fmt.Fprintf(os.Stderr, "t=%d resid=%g tol=%g S=%g prevS=%g I=%g L=%g O=%g netEvap=%g potEvapVol=%g params=%v\n", t, resid, tolB, S, prevS, in[0][t], in[1][t], O, netEvap, area*evapRate*dt, []float64{bias, k, m, area, dead})
 			}
+			prevS = S
 			if o.relChecked && o.rel > worst["rel-"+variant] {
 				worst["rel-"+variant] = o.rel
 			}
@@ -166,7 +171,7 @@ func srlawsEngine(args []string) error {
 			"raw": []float64{bias, k, m, area, dead, dt}})
 		for t, o := range os_ {
 			e := map[string]interface{}{"ev": "step", "t": t, "resid": rk(o.resid), "tolb": rk(o.tolB), "out": rk(o.out), "sto": rk(o.sto), "relchecked": o.relChecked,
-				"rel": 0, "tolr": 0, "zeroflow": o.zeroflow, "residclass": o.residClass, "atdead": o.atDead}
+				"rel": 0, "tolr": 0, "zeroflow": o.zeroflow, "residclass": o.residClass, "atdead": o.atDead, "qconv": o.qconv}
 			if o.relChecked {
 				e["rel"], e["tolr"] = rk(o.rel), rk(o.tolR)
 			}
